@@ -9,6 +9,24 @@ Lemma ite_ext (c c' : bool) (a a' b b' : R) : c = c' -> a = a' -> b = b' ->
   (if c then a else b) = (if c' then a' else b').
 Proof. intros -> -> ->. reflexivity. Qed.
 
+(* guarded congruence for if-then-else: inside a branch the (translated) condition is available, so a clamp
+   that is the identity under the branch condition (x.clamp(min = t) inside `where(x > t, ...)`) is seen through *)
+Lemma ite_ext_g (c c' : bool) (a a' b b' : R) : c = c' -> (c = true -> a = a') -> (c = false -> b = b') ->
+  (if c then a else b) = (if c' then a' else b').
+Proof. intros -> Ha Hb. destruct c'; [apply Ha | apply Hb]; reflexivity. Qed.
+Ltac use_guard Hc :=
+  match type of Hc with
+  | Rltb _ _ = true => apply (proj1 (Rltb_true _ _)) in Hc
+  | Rleb _ _ = true => apply (proj1 (Rleb_true _ _)) in Hc
+  | Rltb _ _ = false => apply (proj1 (Rltb_false _ _)) in Hc
+  | Rleb _ _ = false => apply (proj1 (Rleb_false _ _)) in Hc
+  | _ => idtac
+  end;
+  repeat match goal with
+  | |- context [Rmax ?x ?y] => first [rewrite (Rmax_left x y) by lra | rewrite (Rmax_right x y) by lra]
+  | |- context [Rmin ?x ?y] => first [rewrite (Rmin_left x y) by lra | rewrite (Rmin_right x y) by lra]
+  end.
+
 Ltac open_model :=
   cbv beta zeta delta [mrow ycc_y ycc_cr ycc_cb iycc_r iycc_g iycc_b to_lin inv_gamma srgb_thr to_srgb to_srgb_nc
     xyz_x xyz_y xyz_z ixyz_r ixyz_g ixyz_b hsv_eps max3 min3 amax3 hsv_dc hsv_hraw hsv_h hsv_s hsv_v sel18
@@ -21,7 +39,9 @@ Ltac tie :=
   first
   [ match goal with |- ?a = ?a => reflexivity end
   | match goal with
-    | |- (if _ then _ else _) = (if _ then _ else _) => apply ite_ext; [tieb | tie | tie]
+    | |- (if _ then _ else _) = (if _ then _ else _) =>
+        first [ apply ite_ext; [tieb | tie | tie]
+              | apply ite_ext_g; [tieb | let Hc := fresh "Hc" in intro Hc; use_guard Hc; tie | let Hc := fresh "Hc" in intro Hc; use_guard Hc; tie] ]
     | |- Rpower _ _ = Rpower _ _ => apply f_equal2; tie
     | |- Rfmod _ _ = Rfmod _ _ => apply f_equal2; tie
     | |- Rmax _ _ = Rmax _ _ => apply f_equal2; tie
